@@ -9,6 +9,8 @@ cd /verif
 export VERIF_EVIDENCE_DIR=/var/tmp/verif-scratch/evidence-mut
 # a mutated tree only has to fail: no second chances for undecided obligations (much faster)
 export GOVC_NO_RETRY=1
+# ... but a solver budget that allows for the load of the other lanes
+export GOVC_TIMEOUT=40
 work=/var/tmp/verif-scratch/mutq.$$; mkdir -p $work
 ls selftest/must_fail/*${pat}*.patch 2>/dev/null | sed 's/^/M /' > $work/all
 for d in seeded/*${pat}*/; do [ -f ${d}patch.diff ] && echo "S ${d}patch.diff"; done >> $work/all
